@@ -74,6 +74,17 @@ def decode(harness, values):
         buf = bytes(x[0] for x in flat[:16])
         ln = int.from_bytes(bytes(flat[16]), 'little')
         return {'kind': 'bytes', 'harness': harness, 'hex': buf[:ln].hex(), 'ascii': buf[:ln].decode('latin1')}
+    ORD = {'leaf_variant_ord_is_lex': ('variant', 9), 'leaf_language_ord_is_lex': ('language', 9), 'leaf_script_ord_is_lex': ('script', 5), 'leaf_region_ord_is_lex': ('region', 5)}
+    if harness in ORD:
+        ty, n = ORD[harness]
+        # two draws of (buffer of n bytes, length): any_<type>() twice
+        if len(flat) >= 2 * (n + 1) and all(len(x) == 1 for x in flat[:n]) and len(flat[n]) == 8:
+            def one(off):
+                buf = bytes(x[0] for x in flat[off:off + n])
+                ln = int.from_bytes(bytes(flat[off + n]), 'little')
+                return buf[:ln]
+            a, b = one(0), one(n + 1)
+            return {'kind': 'rawrt', 'harness': harness, 'type': ty, 'a_hex': a.hex(), 'b_hex': b.hex(), 'ascii': [a.decode('latin1'), b.decode('latin1')]}
     if harness in LSR_FAMILIES:
         # replicate the harness's sequence of kani::any() draws: `if any::<bool>() { absent } else { any raw integer }`
         it = iter(flat)
@@ -217,6 +228,8 @@ def run_input(prop, rp):
     inp = rp['input']
     if inp.get('kind') == 'bytes' and inp.get('harness') in LEAF_TYPES:
         cmd = [VW, 'leaf', LEAF_TYPES[inp['harness']], inp['hex']]
+    elif inp.get('kind') == 'rawrt':
+        cmd = [VW, 'rawrt', inp['type'], inp['a_hex'] or '00', inp['b_hex'] or '00']
     elif inp.get('kind') == 'bytes' and inp.get('harness') in XLEAF_TYPES:
         cmd = [VW, 'xleaf', XLEAF_TYPES[inp['harness']], inp['hex']]
     elif inp.get('kind') == 'lsr':
